@@ -34,9 +34,9 @@ class C06(Check):
     world = 'routing-table'
     level = 'exploration'
     design_ref = 'DESIGN.md 3.3'
-    runs = {'quick': 800, 'thorough': 10000}
+    runs = {'quick': 700, 'thorough': 10000}
     shrink_lists = (('ops',), ('config', 'ctor'))
-    hashseeds = {'quick': ['1:O'], 'thorough': ['1:O', 2]}
+    hashseeds = {'quick': ['1:OA'], 'thorough': ['1:OA', 2]}
     rule = ('routing tables of up to 6 routes from a catalogue of overlapping/disjoint patterns (match relation known by '
             'construction), method sets (none/one/several/lower-case), route outcomes (answer, breaking 4xx/5xx raised/returned, '
             'non-breaking 403/404 raised/returned, uncaught exception); built by constructor list and by add(entry, index) '
@@ -111,7 +111,7 @@ class C06(Check):
         ops.append({'op': 'sweep'})
         accepts = [c.choice([None, None, 'text/html', 'application/json', 'application/xml', '*/*', 'text/plain']) for _ in range(c.randint(1, 5))]
         return {'world': 'routing-table', 'seed': seed,
-                'config': {'mode': mode, 'ctor': ctor, 'debug': c.random() < 0.35, 'accepts': accepts}, 'ops': ops}
+                'config': {'mode': mode, 'ctor': ctor, 'debug': c.random() < 0.2, 'accepts': accepts}, 'ops': ops}
 
     def execute(self, plan):
         res = RunResult()
@@ -266,8 +266,10 @@ class C06(Check):
             else:
                 ok = True
                 n = 0
-                for path in R.PATHS:
-                    for method in R.METHODS:
+                last = step == len(plan['ops']) - 1
+                for pi, path in enumerate(R.PATHS):
+                    # the closing sweep asks every path with every method, the ones in between with a rotating third
+                    for method in (R.METHODS if last else R.METHODS[(pi + step) % 3::3]):
                         n += 1
                         if one(path, method, step) is False:
                             ok = False
